@@ -2,6 +2,8 @@
 from lib import hexs
 
 MODULE = "DtailModel.Props.C11"
+# translated packages (tie G) this property's checks rest on
+GEN_UNITS = ("MaprQuery",)
 GROUPS = ["C11"]
 LOGGER = "none"
 BUDGET = {"quick": 4000, "thorough": 120000}
@@ -9,7 +11,7 @@ LEVEL_TEXT = ("Lean model of tokenize/tokensConsume/parseTokens/makeSelect/Where
               "indexing explicit; theorems: the parser never panics on any byte string, clause-level parse theorems and "
               "rejection theorems; tied to the code by a differential run of the real mapr.NewQuery (full dump of the "
               "parsed structure) on rendered abstract queries in every surface variation and on mutations of them; the "
-              "property oracle compares the implementation's dump with the denotation of the abstract query")
+              "property oracle compares the implementation's dump with the denotation of the abstract query; tie G (panic-aware): token.go, selectcondition.go, wherecondition.go (parse / fill), setcondition.go and the parser of query.go (parseTokens, parse, NewQuery) are translated to Lean from the working tree on every run with every index and slice expression guarded (a panic is a value of the translated function), and the driver evaluates the translated NewQuery beside the hand-written model on every case: three-way agreement real code = translated code = model")
 TRUSTED = ["Lean 4 kernel", "axioms: propext, Quot.sound, Classical.choice (at most)", "overlay harness + dtmodel driver + this diff",
            "modelled not verified: strconv.ParseFloat (oracle table computed by the real function), unicode.IsSpace / ToLower / ToUpper "
            "(byte-level model: ASCII plus the runes that matter for keyword comparison; table names are kept ASCII)",
